@@ -157,7 +157,11 @@ where
             //expand the map
             self.data.resize_with(x.as_usize() + 1, Default::default);
         }
-        self.data[x.as_usize()].push(y);
+        let values = &mut self.data[x.as_usize()];
+        if values.last() != Some(&y) {
+            //a relation is recorded once, also if the newest item refers to the same thing multiple times
+            values.push(y);
+        }
     }
 
     /// Remove a relation from the map
@@ -270,8 +274,11 @@ where
 
     /// Insert a relation into the map
     pub fn insert(&mut self, x: A, y: B) {
-        if self.data.contains_key(&x) {
-            self.data.get_mut(&x).unwrap().push(y);
+        if let Some(values) = self.data.get_mut(&x) {
+            if values.last() != Some(&y) {
+                //a relation is recorded once, also if the newest item refers to the same thing multiple times
+                values.push(y);
+            }
         } else {
             self.data.insert(x, vec![y]);
         }
